@@ -605,3 +605,7 @@ V("G2.endorse_rects_count", ["C05", "C04", "C03"], "endorse_rects", "endorse_rec
 K("S1.contains_point_one_cell", ["C09", "C03"], LINE, "check_contains_point_one_cell", "Line::contains_point (parry2d Segment::contains_point)",
   "for every segment and point on the 5 x 5 lattice of one cell at the origin: true <=> the point lies on the closed segment (exact integer arithmetic)",
   kind="bounded", bound="the 25 lattice points of the cell at the origin (symbolic); other positions: S1.is_touching_lattice", kmod="k10", timeout=900, heavy=True)
+
+B("S2.is_collinear_translated", ["C06", "C09"], LINE, "bounded_is_collinear_translated", "util::is_collinear",
+  "true <=> exact cross product zero, for small triangles at any position on the page",
+  "all 15,625 triples of the 25 lattice points of one cell x 8 page offsets up to (400, 200) cells", file="util.rs")
